@@ -28,10 +28,10 @@ CHECKS = {
   text="Bounded exhaustive enumeration: every tree with up to 2 nodes (quick: plus every 11th 3-node tree; thorough: all 3-node trees) over nine node kinds (directory, small / large / hidden file, symlink to file, to directory, to an ancestor (cycle), dangling, to a directory on another device) x 384 traversal configurations (max_depth, max_filesize, follow_links, same_file_system, entry filter, hidden filter, an .ignore rule; threads 2 (thorough 2/4/16)) x root variants; three-way oracle: build() == build_parallel() (same entries, exactly once, same number of error entries) == an independent recursive lister written from the documentation.",
   note="The parallel side runs unhooked (free-running) on these walks; its schedule space is C07's subject. Scratch trees on /dev/shm, the other device is /tmp (created and removed by the run).",
   tech="bounded exhaustive enumeration of trees x configurations with a three-way differential / reference-model oracle"),
- "C07": dict(cat="model_checking", ref="DESIGN.md §2, §3-E3, §4 C07",
-  text="Stateless model checking of the real implementation: the real ignore::WalkParallel runs under a cooperative replay scheduler (feature verif-hooks) and every interleaving of its hooked synchronisation points is executed up to a preemption bound (iterative preemption bounding, CHESS style), with injected Steal::Retry answers and a visitor Quit injected at every visit index, over all small trees; oracle: termination (deadlock / livelock detection) and exact visit multiset.",
-  note="Trusted: crossbeam-deque linearizability (each deque operation is one atomic step; Retry is injected), SC behaviour of the RMW/SeqCst atomics, the scheduler hook itself. Not covered: more than 3 (quick) / 4 (thorough) workers, trees above the size bound, schedules needing more preemptions than the bound.",
-  tech="stateless model checking: exhaustive schedule exploration of the real code under a controlled scheduler with a preemption bound"),
+ "C07": dict(cat="model_checking", ref="DESIGN.md §2, §3-E3/E4, §11 C07",
+  text="Two layers. (E3) stateless model checking of the real implementation: the real ignore::WalkParallel runs under a cooperative replay scheduler (feature verif-hooks) and every interleaving of its hooked synchronisation points is executed up to a preemption bound (iterative preemption bounding), with injected Steal::Retry answers and a visitor Quit injected at every visit index, over all small trees; oracle: termination (deadlock / livelock detection) and exact visit multiset. (E4) an explicit-state model of the work-distribution / termination protocol (a step = the code between two hooked points) explored breadth-first over ALL interleavings, no preemption bound, for 2-3 (thorough 4) workers: no double visit, exact visit multiset in every all-exited state, every cycle is idle polling and every bottom strongly connected component is all-exited (termination under weak fairness). The model is bound to the code in both directions on every run: every implementation trace is replayed through the model's step function (worker, next point, visits, enabled set), and covering schedules of the model's state graph are executed on the implementation. If the binding fails the run prints MODEL-DRIFT and the model's result is not claimed; a model-level violation counts only when the implementation shows it on the converted schedule.",
+  note="Trusted: crossbeam-deque linearizability (each deque operation is one atomic step; Retry is injected), SC behaviour of the RMW/SeqCst atomics, the scheduler hook itself. Not covered: more than 3 (quick) / 4 (thorough) workers, trees above the size bound, E3 schedules needing more preemptions than the bound on trees too large for E4.",
+  tech="stateless model checking of the real code under a controlled scheduler (preemption-bounded) plus explicit-state exploration of a protocol model with two-way trace conformance against the implementation"),
  "C08": dict(cat="model_checking", ref="DESIGN.md §2, §3-E3, §4 C08",
   text="Stateless schedule exploration of the REAL rg binary: one process per schedule, the parallel walker's workers serialised by the cooperative replay scheduler (RG_VERIF_SCHED, feature ignore/verif-hooks), every interleaving of the hooked points within 1 (quick) / 2 (thorough) preemptions, for four scratch trees (unequal file sizes, nested directories, a dangling symlink under -L, a --pre command failing after it produced output) x nine output modes x -j2 (thorough also -j3), plus --sort path. Oracle: the same command at -j1 — same exit status; stdout split by the mode's own framing into per-file blocks is a permutation of the single-threaded blocks, each file contiguous and exactly once, separators exactly between blocks; --sort byte-identical.",
   note="Trusted: termcolor's BufferWriter locking; the visitor (search and print of one file) is atomic between two hooked points. Not judged: whether the partial results of a file whose search failed are shown (error handling: C15/C18).",
